@@ -346,7 +346,70 @@ func c19Mode(r *rand.Rand, name string) int {
 	return r.Intn(5)
 }
 
+// c19Special: archives with a part of more than 1 MiB in front of the marker, and
+// pairs of equal-length archives detected one after the other in the SAME buffer.
+func c19Special(c *fw.Ctx) {
+	r := c.Rand
+	big := make([]byte, 1100*1024)
+	for i := range big {
+		big[i] = byte(r.Intn(256))
+	}
+	for _, mode := range []int{0, 1, 2} {
+		for _, mk := range []string{"word/document.xml", "xl/workbook.xml", "ppt/presentation.xml"} {
+			es := []c19Entry{{Name: "[Content_Types].xml", Mode: 0, Body: []byte("<Types/>")}, {Name: "docProps/thumbnail.jpeg", Mode: mode, Body: big}, {Name: mk, Mode: 0, Body: []byte("<x/>")}}
+			c19Judge(c, es, "large-part")
+		}
+	}
+	// same backing array, same length, different archives
+	buf := make([]byte, 1<<16)
+	pairs := [][2]string{{"word/document.xml", "ward/document.xml"}, {"xl/workbook.xml", "xx/workbook.xml"}, {"ppt/slides/s1.xml", "pqt/slides/s1.xml"}, {"META-INF/MANIFEST.MF", "META-INF/MANIFEST.MG"}, {"classes.dex", "classes.dey"}}
+	for rep := 0; rep < 40; rep++ {
+		for _, pr := range pairs {
+			mode := r.Intn(3)
+			mkA := func(name string) []byte {
+				var es []c19Entry
+				if !strings.HasPrefix(name, "META") && !strings.HasPrefix(name, "classes") {
+					es = append(es, c19Entry{Name: "[Content_Types].xml", Mode: mode, Body: []byte("<Types/>")}, c19Entry{Name: "_rels/.rels", Mode: mode, Body: []byte("<r/>")})
+				}
+				es = append(es, c19Entry{Name: name, Mode: mode, Body: []byte("<doc/>")}, c19Entry{Name: "other.txt", Mode: mode, Body: []byte("o")})
+				d, _ := c19Build(es)
+				return d
+			}
+			a, bb := mkA(pr[0]), mkA(pr[1])
+			if len(a) != len(bb) || len(a) > len(buf) {
+				continue
+			}
+			order := [][]byte{a, bb, a}
+			if rep%2 == 1 {
+				order = [][]byte{bb, a, bb}
+			}
+			var got []string
+			for _, d := range order {
+				n := copy(buf, d)
+				got = append(got, lib.ChainOf(lib.Detect(buf[:n], 0)).String())
+			}
+			fresh := map[string]string{}
+			for _, d := range [][]byte{a, bb} {
+				fresh[string(d)] = lib.ChainOf(lib.Detect(append([]byte(nil), d...), 0)).String()
+			}
+			c.Eval(5)
+			c.Count("buffer_reuse_sequences", 1)
+			for i, d := range order {
+				if got[i] != fresh[string(d)] {
+					c.Violate("zip-verdict-depends-on-buffer-history", fw.InputKey(d, 0, "Detect/reused-buffer"), fmt.Sprintf("archive with entry %q gives %s when it is detected in a buffer that held an equal-length archive before, %s in a fresh slice", pr[i%2], got[i], fresh[string(d)]), c19Payload{Note: "buffer-reuse"})
+					break
+				}
+			}
+			c.Distinct("reuse|" + pr[0])
+		}
+	}
+}
+
 func c19Run(c *fw.Ctx, b fw.Batch) {
+	if b.Kind == "special" {
+		c19Special(c)
+		return
+	}
 	r := c.Rand
 	markers := []string{"word/document.xml", "word/", "xl/workbook.xml", "xl/", "ppt/presentation.xml", "ppt/", "word/_rels/document.xml.rels", "xl/worksheets/sheet1.xml"}
 	for i := 0; i < b.N; i++ {
@@ -438,7 +501,7 @@ func init() {
 	fw.Register(&fw.Prop{
 		ID:    "C19",
 		Level: "exploration",
-		Rule: "archives are written with archive/zip from generated entry lists: OOXML-like packages ([Content_Types].xml first, bookkeeping parts _rels / docProps / customXml / [trash] in any combination incl. directory entries, one marker part word/ xl/ ppt/ at positions 2-10, sometimes further markers, near-miss names words/ Word/ xl.xml pptx/ and proper prefixes x xl wor word pp M, unrelated names of 1-60 characters), JARs, APK-like, ODF/EPUB with a stored 'mimetype' first entry (exact and near-miss contents), unrelated-only archives; every entry is written in one of 6 ways (Create = deflate + data descriptor; store + descriptor; CreateRaw store with sizes; CreateRaw deflate with sizes; deflate + descriptor + extended-timestamp extra field; directory entry); bodies empty / one byte / XML-like / random / large; an 'aliasing' family puts the remainder of a marker at the start of a body that follows a proper-prefix name. Archives whose bytes contain PK\\x03\\x04 other than at entry headers are dropped. The entry list is read back with zip.Reader and decides P1 P2 P3 N1 N2 and the application/zip parent; limit 0. " +
+		Rule: "archives are written with archive/zip from generated entry lists: OOXML-like packages ([Content_Types].xml first, bookkeeping parts _rels / docProps / customXml / [trash] in any combination incl. directory entries, one marker part word/ xl/ ppt/ at positions 2-10, sometimes further markers, near-miss names words/ Word/ xl.xml pptx/ and proper prefixes x xl wor word pp M, unrelated names of 1-60 characters), JARs, APK-like, ODF/EPUB with a stored 'mimetype' first entry (exact and near-miss contents), unrelated-only archives; every entry is written in one of 6 ways (Create = deflate + data descriptor; store + descriptor; CreateRaw store with sizes; CreateRaw deflate with sizes; deflate + descriptor + extended-timestamp extra field; directory entry); bodies empty / one byte / XML-like / random / large; an 'aliasing' family puts the remainder of a marker at the start of a body that follows a proper-prefix name. A few packages carry a part of more than 1 MiB in front of the marker, and pairs of equal-length archives are detected one after the other in the same buffer. Archives whose bytes contain PK\\x03\\x04 other than at entry headers are dropped. The entry list is read back with zip.Reader and decides P1 P2 P3 N1 N2 and the application/zip parent; limit 0. " +
 			"non-trivial = an archive with a claim (P1/P2/P3/N2) and more than one entry; distinct = distinct (family, claim, verdict, set of writer modes used, position of the first marker, entry count).",
 		Assumptions: []string{
 			"archive/zip is the standard writer and reader",
@@ -452,6 +515,7 @@ func init() {
 			}
 			bs := batches("realistic", 12, n, 3000)
 			bs = append(bs, batches("aliasing", 4, n, 3000)...)
+			bs = append(bs, batches("special", 1, 0, 3000)...)
 			return bs
 		},
 		Run: c19Run,
@@ -459,6 +523,10 @@ func init() {
 			var p c19Payload
 			if err := stdjson.Unmarshal(payload, &p); err != nil {
 				fmt.Println("bad payload:", err)
+				return
+			}
+			if p.Note == "buffer-reuse" {
+				c19Special(c)
 				return
 			}
 			c19Judge(c, p.Entries, "replay")
